@@ -13,8 +13,14 @@ fn kvs_str(kv: &Kv) -> String {
 }
 
 pub fn c05(g: &mut G) {
-    // 7-string universe: "", a, aa, ab, b, ba, bb
-    let u = universe(b"ab", 2);
+    c05_universe(g, &universe(b"ab", 2), 1);
+    // keys that differ only by trailing NUL bytes / are prefixes of each other with byte 0
+    c05_universe(g, &universe(&[0x00, 0x61], 2), 4);
+    // 0xff and multi-byte boundaries
+    c05_universe(g, &universe(&[0x61, 0xff], 2), 8);
+}
+
+fn c05_universe(g: &mut G, u: &[Vec<u8>], thin: u64) {
     let n = u.len() as u32;
     let kinds = ["union", "inter", "symdiff", "diff"];
     let emit_tuple = |g: &mut G, masks: &[u64]| {
@@ -22,7 +28,7 @@ pub fn c05(g: &mut G) {
         let streams: Vec<String> = masks
             .iter()
             .map(|&m| {
-                let keys = subset(&u, m);
+                let keys = subset(u, m);
                 let kv: Kv = keys.iter().map(|k| (k.clone(), g.rng.below(3))).collect();
                 kvs_str(&kv)
             })
@@ -43,21 +49,24 @@ pub fn c05(g: &mut G) {
     }
     for a in 0..(1u64 << n) {
         for b in 0..(1u64 << n) {
-            if g.thorough || (a * 131 + b * 7) % 4 == 0 {
+            if (g.thorough && thin == 1) || (a * 131 + b * 7) % (4 * thin) == 0 {
                 emit_tuple(g, &[a, b]);
             }
         }
     }
     // k = 3: sample (thorough: a large sample), k = 4..6 sampled
-    let n3 = if g.thorough { 60_000 } else { 4_000 };
+    let n3 = (if g.thorough { 60_000 } else { 4_000 }) / thin;
     for _ in 0..n3 {
         let ms = [g.rng.below(1 << n), g.rng.below(1 << n), g.rng.below(1 << n)];
         emit_tuple(g, &ms);
     }
-    for _ in 0..(if g.thorough { 8_000 } else { 800 }) {
+    for _ in 0..((if g.thorough { 8_000 } else { 800 }) / thin) {
         let k = 4 + g.rng.below(3) as usize;
         let ms: Vec<u64> = (0..k).map(|_| g.rng.below(1 << n)).collect();
         emit_tuple(g, &ms);
+    }
+    if thin != 1 {
+        return;
     }
     // identical streams, larger random maps
     for _ in 0..(if g.thorough { 300 } else { 40 }) {
@@ -318,6 +327,14 @@ pub fn c08(g: &mut G) {
             i += c;
         }
         g.emit(format!("crc {}", chunks.join("|")));
+    }
+    // FSTs built through sinks that accept writes piecewise must verify too
+    for calls in sample_inputs(g) {
+        let ops = show_calls(&calls);
+        for cap in [1usize, 3, 7] {
+            let script: Vec<Resp> = (0..4000).map(|i| if i % 5 == 4 { Resp::Interrupted } else { Resp::Take(cap) }).collect();
+            g.emit(format!("sink 0 default {} - _ {}", script_str(&script), ops));
+        }
     }
     // built FSTs verify; every single-byte alteration is detected
     let sets = key_sets(g);
